@@ -447,9 +447,30 @@ func init() {
 	})
 	register(&Prop{
 		ID: "C02", Cmd: "parse",
-		Rule:   "random certified grammars as for C01 with longer inputs; probes inside every Memoize record the number of live activations per (parser, position) and abort when it exceeds remaining+2; activation maxima are compared with the model's ghost counter. Non-trivial = some memoized parser active more than once at one position.",
+		Rule:   "random certified grammars as for C01 with longer inputs, every third case with the parsed file preceded by 1-3 other files (non-default base offset); probes inside every Memoize record the number of live activations per (parser, position) and abort when it exceeds remaining+2; activation maxima are compared with the model's ghost counter. Non-trivial = some memoized parser active more than once at one position.",
 		Count:  quickN(5000, 50000),
-		Gen:    genParseCase(genOpts{subMemo: 0.15, sentence: 0.5, maxRules: 3}, 14),
+		Gen: func(rng *rand.Rand, tier string, i int) *Sexp {
+			c := genParseCase(genOpts{subMemo: 0.15, sentence: 0.5, maxRules: 3}, 14)(rng, tier, i)
+			if i%3 == 2 {
+				// the parsed file at a non-default base offset: the curtailment bound is "remaining input", which must
+				// not depend on where the file sits in the file set
+				nBefore := 1 + rng.Intn(3)
+				for _, x := range c.List {
+					switch x.Head() {
+					case "files":
+						target := x.List[1]
+						files := []*Sexp{x.List[0]}
+						for b := 0; b < nBefore; b++ {
+							files = append(files, L(HS(fmt.Sprintf("p%d", b)), H(genBytes(rng, 12))))
+						}
+						x.List = append(files, target)
+					case "target":
+						x.List[1] = N(nBefore)
+					}
+				}
+			}
+			return c
+		},
 		Exec:   parseExec(oracleC02, func(c *Sexp, obs parseObs) bool { return obs.rec != nil && obs.rec.maxDepth > 1 }),
 		Shrink: shrinkParse,
 	})
